@@ -112,8 +112,11 @@ func c19Exhaustive(tier string) []corr.Case {
 			name = "/p/t"
 		}
 		for acc := 0; acc <= 2; acc++ {
-			for bits := 0; bits < 8; bits++ {
+			for bits := 0; bits < 16; bits++ {
 				flag := acc
+				if bits&8 != 0 {
+					flag |= oAPPEND
+				}
 				if bits&1 != 0 {
 					flag |= oCREATE
 				}
@@ -128,7 +131,12 @@ func c19Exhaustive(tier string) []corr.Case {
 				if tn == "file" || tn == "parent-file" {
 					h = 1
 				}
-				l = append(l, fmt.Sprintf("openfile %s %d", hx(name), flag),
+				l = append(l, fmt.Sprintf("openfile %s %d", hx(name), flag))
+				if bits&8 != 0 {
+					// a handle opened with O_APPEND reads from the start like any other
+					l = append(l, fmt.Sprintf("seek %d 0 1", h), fmt.Sprintf("read %d 2", h))
+				}
+				l = append(l,
 					fmt.Sprintf("write %d 4142", h), fmt.Sprintf("writeat %d 43 4", h), fmt.Sprintf("readat %d 8 0", h),
 					fmt.Sprintf("hstat %d", h), fmt.Sprintf("close %d", h), "snapshot")
 				cases = append(cases, mk(l...))
@@ -319,6 +327,9 @@ func c19Random(r *corr.Rand, tier string) []corr.Case {
 				}
 				if rr.Chance(15) {
 					flag |= oEXCL
+				}
+				if rr.Chance(12) {
+					flag |= oAPPEND
 				}
 				if rr.Chance(20) {
 					flag |= oTRUNC
